@@ -237,8 +237,29 @@ func main() {
 			c.R = V{K: "int", Z: fmt.Sprint(h)}
 		}
 		hx.Emit(c)
+		if o.d.K == "dur" {
+			env := starlark.StringDict{"d": o.v, "time": stime.Module}
+			for _, src := range []string{
+				"time.parse_duration(str(d)) == d",
+				"{d: 1}[time.parse_duration(str(d))] == 1",
+				"d + time.second - time.second == d",
+			} {
+				v, err := starlark.Eval(thread, "c19", src, env)
+				hx.Emit(Case{"law", src, o.d, V{}, describe(v, err)})
+			}
+		}
 		if o.d.K == "time" {
 			env := starlark.StringDict{"t": o.v, "time": stime.Module}
+			// direct laws on the implementation (no model): component and text round trips
+			for _, src := range []string{
+				"(lambda u: time.time(year=u.year, month=u.month, day=u.day, hour=u.hour, minute=u.minute, second=u.second, nanosecond=u.nanosecond, location='UTC') == u)(t.in_location('UTC'))",
+				"time.from_timestamp(t.unix, t.nanosecond).unix_nano == t.unix_nano",
+				"t.in_location('UTC') == t and {t: 1}[t.in_location('UTC')] == 1 and t.in_location('UTC') in set([t])",
+				"(t + time.hour) - time.hour == t and (t - time.from_timestamp(0)) + time.from_timestamp(0) == t",
+			} {
+				v, err := starlark.Eval(thread, "c19", src, env)
+				hx.Emit(Case{"law", src, o.d, V{}, describe(v, err)})
+			}
 			for _, src := range []string{
 				"time.from_timestamp(t.unix, t.nanosecond)",
 				"time.from_timestamp(0, t.unix_nano)",
